@@ -5,6 +5,7 @@ CONSTANTS
   NFields = {1, 2}
   Pairs = TRUE
   Lenient = TRUE
+  SeqDense = 16
   Emit = TRUE
 INVARIANTS RoundTrip Deterministic EmitInv
 CHECK_DEADLOCK FALSE
